@@ -118,4 +118,20 @@ def WF : Msg → Prop
   | .request => True
   | .status gs => gs ≠ [] ∧ ∀ g ∈ gs, WFRec g
 
+/-- run-time test of `WFRec` / `WF` (see `Lemmas.At4X2B.wfBool_iff`) -/
+def wfRecBool (g : GroupStatusData) : Bool :=
+  decide (g.group_number < 64) && decide (g.damper_percentage < 128) &&
+  (match g.has_sensor, g.set_point, g.temperature with
+   | true, some sp, _ => decide (sp < 64)
+   | true, none, _ => false
+   | false, none, none => true
+   | false, _, _ => false) &&
+  (match g.temperature with
+   | some t => decide (-500 ≤ t) && decide (t ≤ 1547) && decide (t ≠ 1540)
+   | none => true)
+
+def wfBool : Msg → Bool
+  | .request => true
+  | .status gs => !gs.isEmpty && gs.all wfRecBool
+
 end PyAirtouch.Model.At4.X2B
